@@ -8,6 +8,8 @@
   `end_event` (a connection event took place), `timeout` (the event was lost) and
   `try_event_cancelation` (the host queued data while an event with peripheral latency is planned).
 -/
+import BluetoeModel.Timing.Model
+
 namespace BluetoeModel.Instants
 
 def W : Nat := 65536
@@ -132,14 +134,15 @@ def instantPassed (instant counter : Nat) : Bool :=
   let d := sub16 instant counter
   d == 0 || d ≥ 32767
 
+/-- the parameters of a Connection Update pass `parse_timing_parameters_from_connection_update_request`
+    (window offset ≤ interval) and `check_timing_paremeters`, as modelled by
+    `BluetoeModel.Timing.parseUpdate` / `checkTiming` (code with fix timing-01: connInterval 6..3200,
+    WinSize ≥ 1 and ≤ 10 ms and ≤ interval, timeout 100 ms..32 s, latency ≤ 499, timeout strictly
+    greater than (1 + latency) · interval · 2); a failing `delta_time` assertion (`none`, excluded
+    by the range checks that come first) counts as refused -/
 -- src: link_layer::check_timing_paremeters + parse_timing_parameters_from_connection_update_request
 def ConnParams.valid (p : ConnParams) : Bool :=
-  let ws := p.winSize * 1250
-  let wo := p.winOffset * 1250
-  let iv := p.interval * 1250
-  let to := p.timeout * 10000
-  wo ≤ iv && ws ≤ 10000 && ws ≤ iv && 100000 ≤ to && to ≤ 32000000
-    && (p.latency + 1) * 2 * iv ≤ to && p.latency ≤ 499
+  (BluetoeModel.Timing.parseUpdate ⟨p.winSize, p.winOffset, p.interval, p.latency, p.timeout⟩).2 == some true
 
 /-- the instant checks of the three procedures (fix 01): Connection Update keeps the refusal of
     "instant = next event" of the original code (`== connection_event_counter() + 1`, compared as
